@@ -8,6 +8,7 @@ import (
 	"os"
 	"os/exec"
 	"path/filepath"
+	"regexp"
 	"strings"
 	"testing"
 
@@ -109,12 +110,22 @@ var phForms = []phForm{
 	{"{q:s2..}", func(c c12Ctx) []string {
 		return []string{fieldWord(c.query, mkDelimSpec(""), "2..", true)}
 	}},
+	// {f} / {+f}: one word, the name of a temporary file (content: PlaceholderFile)
+	{"{f}", func(c c12Ctx) []string { return []string{c12FileWord} }},
+	{"{+f}", func(c c12Ctx) []string { return []string{c12FileWord} }},
+	// {r}: inserted unquoted by definition - only generated for texts that are one plain shell word
+	{"{r}", func(c c12Ctx) []string { return []string{c.cur} }},
+	{"{r1}", func(c c12Ctx) []string { return []string{fieldWord(c.cur, c.delim, "1", false)} }},
 	{"\\{}", func(c c12Ctx) []string { return []string{"{}"} }},
 	{"\\{q}", func(c c12Ctx) []string { return []string{"{q}"} }},
 	{"\\{+}", func(c c12Ctx) []string { return []string{"{+}"} }},
 	{"\\{1}", func(c c12Ctx) []string { return []string{"{1}"} }},
 	{"\\{n}", func(c c12Ctx) []string { return []string{"{n}"} }},
 }
+
+const c12FileWord = "\x02FILE"
+
+var c12PlainWord = regexp.MustCompile(`^[a-zA-Z0-9_é]+$`)
 
 func runShellWords(t *rapid.T, shell string, cmd string, dir string) []string {
 	c := exec.Command(shell, "-c", cmd)
@@ -143,6 +154,9 @@ func TestVerifC12_PlaceholderShell(t *testing.T) {
 	rapid.Check(t, func(t *rapid.T) {
 		var c c12Ctx
 		c.cur = c12Text(t, "cur")
+		if rapid.IntRange(0, 4).Draw(t, "plainCur") == 0 {
+			c.cur = string(rapid.SliceOfN(rapid.SampledFrom([]rune("abXY09_é")), 1, 6).Draw(t, "plain"))
+		}
 		c.curIdx = int32(rapid.IntRange(0, 100000).Draw(t, "curIdx"))
 		c.query = c12Text(t, "query")
 		c.prompt = rapid.SampledFrom([]string{"> ", "$ ", "' ", "`x` "}).Draw(t, "prompt")
@@ -167,6 +181,9 @@ func TestVerifC12_PlaceholderShell(t *testing.T) {
 		var forms []string
 		for i := 0; i < nph; i++ {
 			f := rapid.SampledFrom(phForms).Draw(t, "form")
+			if strings.HasPrefix(f.tmpl, "{r") && !c12PlainWord.MatchString(c.cur) {
+				f = phForms[0]
+			}
 			tmpl += " " + f.tmpl
 			forms = append(forms, f.tmpl)
 			want = append(want, f.words(c)...)
@@ -174,6 +191,10 @@ func TestVerifC12_PlaceholderShell(t *testing.T) {
 		cmd, temps := replacePlaceholder(replacePlaceholderParams{template: tmpl, delimiter: c.delim.d, printsep: "\n",
 			query: c.query, allItems: items, prompt: c.prompt, executor: ex})
 		removeFiles(temps)
+		isTemp := map[string]bool{}
+		for _, f := range temps {
+			isTemp[f] = true
+		}
 		hostile := false
 		for _, s := range append([]string{c.cur, c.query}, c.sel...) {
 			if strings.ContainsAny(s, "'\\\n$`") {
@@ -187,7 +208,13 @@ func TestVerifC12_PlaceholderShell(t *testing.T) {
 		os.Remove(filepath.Join(dir, "CANARY"))
 		for _, sh := range []string{"/bin/sh", "/bin/bash"} {
 			got := runShellWords(t, sh, cmd, dir)
-			if strings.Join(got, "\x01") != strings.Join(want, "\x01") || len(got) != len(want) {
+			cmp := append([]string{}, got...)
+			for i := range cmp {
+				if i < len(want) && want[i] == c12FileWord && isTemp[cmp[i]] {
+					cmp[i] = c12FileWord
+				}
+			}
+			if strings.Join(cmp, "\x01") != strings.Join(want, "\x01") || len(got) != len(want) {
 				t.Fatalf("%s: template %q\ncurrent %q selected %q query %q delimiter %q\nexpansion %q\nwords got  %q\nwords want %q", sh, tmpl, c.cur, c.sel, c.query, c.delim.arg, cmd, got, want)
 			}
 			if _, err := os.Stat(filepath.Join(dir, "CANARY")); err == nil {
